@@ -108,7 +108,7 @@ Proof. vm_compute. repeat split; try reflexivity. repeat constructor. Qed.
 
 (* A synced row survives hub compaction and ledger pruning without a second copy being stored. *)
 Example C27_compaction_nonvacuous :
-  let evs := [ECreate 1 [5; 6]; ex_run None ROk []; EHubCompact 1; EPrune; ex_run None ROk [];
+  let evs := [ECreate 1 [5; 6]; ex_run None ROk []; EHubMarkCompacted 1; EPrune; ex_run None ROk []; EHubDeleteRaw 1; EPrune; ex_run None ROk [];
               ex_run None ROk []] in
   let w := run_history idH ex_pt 3 evs world0 in
   h_final (w_hub w) 1 = None /\ h_rcpt (w_hub w) 1 = Some ([5; 6], true) /\ h_commits (w_hub w) 1 = 1 /\
